@@ -1,3 +1,25 @@
-"""Runs and wall caps per property and tier (calibrated on the 16-core sandbox)."""
+"""Runs and wall caps per property and tier (calibrated on the 16-core sandbox: quick is
+about 20 s of simulation after the import, thorough about 20 min)."""
+
+
+def _b(q, t=None):
+    return {"quick": {"runs": q, "wall": 240}, "thorough": {"runs": t or q * 60, "wall": 2400}}
+
+
 BUDGETS = {
+    "C01": _b(5000),
+    "C02": _b(12000),
+    "C03": _b(10000),
+    "C04": _b(10000),
+    "C05": _b(12000),
+    "C06": _b(8000),
+    "C09": _b(8000),
+    "C10": _b(8000),
+    "C12": _b(7000),
+    "C13": _b(8000),
+    "C15": _b(20000),
+    "C16": _b(12000),
+    "C18": _b(8000),
+    "C08": _b(3500),
+    "C19": _b(7000),
 }
